@@ -32,6 +32,7 @@ type World struct {
 	funcsByKey   map[string]*ssa.Function
 	allFuncs     map[*ssa.Function]bool
 	loadErrors   []string
+	knownObligations map[string]bool
 }
 
 func loadWorld(repo string, patterns []string) (*World, error) {
